@@ -12,5 +12,6 @@ INVARIANT HitsInside
 INVARIANT LinesInside
 INVARIANT LinesNested
 INVARIANT HitsRestOnLines
+INVARIANT GapsAvoidNotes
 CONSTRAINT EmitScn
 CHECK_DEADLOCK FALSE
